@@ -178,8 +178,13 @@ def canonicalise_text(text, roles):
 
 
 def load_canonical(path):
-    with open(path) as fh:
-        text = fh.read()
+    if path.endswith(".gz"):
+        import gzip
+        with gzip.open(path, "rt") as fh:
+            text = fh.read()
+    else:
+        with open(path) as fh:
+            text = fh.read()
     d = json.loads(text)
     roles = detect(d)
     text2, rn = canonicalise_text(text, roles)
